@@ -65,6 +65,41 @@ Example C01_roundtrip_hyps_example :
 Proof. exact roundtrip_hyps_example. Qed.
 Print Assumptions C01_roundtrip_hyps_example.
 
+(* (P') For parsers of the container grammar — every leaf of type str / int / float / bool, List[T], Dict[str, T],
+   Tuple[T1, ..], Tuple[T, ...] nested at will, Optional[T] (T not str) — and configurations holding values of these types
+   (leaf_simple; what the real parser hands out is checked per case by the judge), per-leaf stability is PROVED
+   (Proofs/C01Proofs.v simple_rt: structural induction on the type, for any loader oracle and any declared default):
+   inside the guard, dump -> text -> parse returns the configuration, with no premise about the leaves left. *)
+Theorem C01_dump_parse_roundtrip_simple :
+  forall (yl : str -> option val) (plain_ok : str -> bool) (yrepr jrepr : fl -> str),
+    int_text_ok -> yfloat_text_ok yrepr -> jfloat_text_ok jrepr ->
+    forall vr lvs,
+      case_class yl vr lvs = 0%N ->
+      forallb leaf_simple lvs = true ->
+      exists ws, roundtrip yl plain_ok yrepr jrepr dumper_table loader_table vr lvs = Some ws /\
+                 Forall2 (fun w' w => veq w' w = true) ws (map snd lvs).
+Proof. exact dump_parse_roundtrip_simple. Qed.
+Print Assumptions C01_dump_parse_roundtrip_simple.
+
+Example C01_roundtrip_simple_hyps_example :
+  case_class id_yl yaml_keep simple_leaves = 0%N /\ forallb leaf_simple simple_leaves = true /\
+  roundtrip id_yl no_plain some_text some_text dumper_table loader_table yaml_keep simple_leaves = Some (map snd simple_leaves).
+Proof. exact roundtrip_simple_hyps_example. Qed.
+Print Assumptions C01_roundtrip_simple_hyps_example.
+
+(* (P) for parsers with subcommands: the serialisation is taken by the top-level parser; class 13 = it has a required
+   subcommand and skip_default is asked for *)
+Theorem C01_dump_parse_roundtrip_subcommands :
+  forall (yl : str -> option val) (plain_ok : str -> bool) (yrepr jrepr : fl -> str),
+    int_text_ok -> yfloat_text_ok yrepr -> jfloat_text_ok jrepr ->
+    forall req_sub sub vr lvs,
+      top_class yl req_sub sub vr lvs = 0%N ->
+      Forall (fun lw => leaf_stable yl (vr_skip_none vr) (fst lw) (snd lw)) lvs ->
+      exists ws, roundtrip_top yl plain_ok yrepr jrepr dumper_table loader_table req_sub sub vr lvs = Some ws /\
+                 Forall2 (fun w' w => veq w' w = true) ws (map snd lvs).
+Proof. exact dump_parse_roundtrip_top. Qed.
+Print Assumptions C01_dump_parse_roundtrip_subcommands.
+
 (* ---- the full statement (no guard) is false of the faithful model: one witness per finding ---------------------- *)
 (* save(): default skip_none=True drops an explicit None over the default 5; the re-parse gives 5 *)
 Theorem C01_save_skip_none_refuted :
@@ -120,3 +155,22 @@ Theorem C01_json_nonfinite_refuted :
   rt inf_text json_keep {| lf_key := kx; lf_ty := CFloat; lf_def := VNone |} (VFloat (FInf false)) = None.
 Proof. exact json_nonfinite_witness. Qed.
 Print Assumptions C01_json_nonfinite_refuted.
+
+(* dump(skip_default=True) / --print_config=skip_default before the subcommand, by a parser with a REQUIRED subcommand:
+   get_defaults() has no subcommand chosen and strip_link_target_keys(defaults) raises NSKeyError — no text at all
+   (class 13); with an optional subcommand (or inside the subcommand) the same configuration is in the guard *)
+Theorem C01_skip_default_subcommand_refuted :
+  top_class id_yl true None yaml_skipdef ex_leaves = 13%N /\
+  roundtrip_top id_yl no_plain some_text some_text dumper_table loader_table true None yaml_skipdef ex_leaves = None /\
+  top_class id_yl false None yaml_skipdef ex_leaves = 0%N.
+Proof. exact skip_default_subcommand_witness. Qed.
+Print Assumptions C01_skip_default_subcommand_refuted.
+
+(* the chosen subcommand's mapping is written empty (its only option is None and save() drops None entries): `fit: {}` is
+   not taken for a choice of the subcommand on the way back (class 14); with nulls kept the same configuration is in the guard *)
+Theorem C01_empty_subcommand_refuted :
+  top_class id_yl true (Some fit_pre) save_default fit_leaves = 14%N /\
+  roundtrip_top id_yl no_plain some_text some_text dumper_table loader_table true (Some fit_pre) save_default fit_leaves = None /\
+  top_class id_yl true (Some fit_pre) yaml_keep fit_leaves = 0%N.
+Proof. exact empty_subcommand_witness. Qed.
+Print Assumptions C01_empty_subcommand_refuted.
